@@ -233,3 +233,161 @@ class ModelPtrReplaceParent:
             "out_of_old_set": implies(not (old(self.parent) is t), not (self in attr_set(old(self.parent), "child_pointers"))),
             "other_members_kept": forall(old(attr_set(t, "child_pointers")), lambda p: p in attr_set(t, "child_pointers")),
         }
+
+
+@assumed("permutations", props=[])
+class Permutations2:
+    """itertools.permutations(s, 2): exactly the ordered pairs of distinct members of s"""
+    sorts = {"a0": "set", "a1": "int", "result": "list"}
+
+    def ensures(self, a0, a1, result):
+        return {
+            "pairs": implies(a1 == 2, forall(result, lambda p: p is tuple2(at(p, 0), at(p, 1)) and at(p, 0) in a0 and at(p, 1) in a0 and not (at(p, 0) is at(p, 1)))),
+            "all_pairs": implies(a1 == 2, forall(a0, lambda a: forall(a0, lambda b: implies(not (a is b), exists(range(seq_len(result)), lambda k: at(result, k) is tuple2(a, b)))))),
+        }
+
+
+@contract(REG + ".remove", props=["C09"])
+class RegistryRemove:
+    """C09 'disabled types never appear': after remove(c) the class is registered no more (one registration removed)
+    and no replace pair mentions it; every other pair is kept."""
+    sorts = {"types": "list", "replaces": "set"}
+    modifies = ["types", "replaces"]
+
+    def requires(self, cls):
+        return {"registered": cls in self.types,
+                "replaces_are_pairs": forall(self.replaces, lambda p: p is tuple2(at(p, 0), at(p, 1)))}
+
+    def ensures(self, cls):
+        return {
+            "one_registration_removed": seq_len(self.types) == seq_len(old(self.types)) - 1 and forall(self.types, lambda t: t in old(self.types)),
+            "others_still_registered": forall(old(self.types), lambda t: implies(not (t == cls), t in self.types)),
+            "no_pair_mentions_cls": forall(self.replaces, lambda p: not (at(p, 0) is cls) and not (at(p, 1) is cls)),
+            "other_pairs_kept": forall(old(self.replaces), lambda p: implies(not (at(p, 0) is cls) and not (at(p, 1) is cls), p in self.replaces)),
+            "no_new_pairs": forall(self.replaces, lambda p: p in old(self.replaces)),
+            "gone_if_registered_once": implies(distinct(old(self.types)), distinct(self.types) and not (cls in self.types)),
+        }
+
+
+@loop(REG + ".remove", 1)
+def registry_remove_loop(self, cls, _it, _seq):
+    return {
+        "subset": forall(self.replaces, lambda p: p in old(self.replaces)),
+        "seen_removed": forall(range(_it), lambda j: implies(at(_seq[j], 0) is cls or at(_seq[j], 1) is cls, not (_seq[j] in self.replaces))),
+        "others_kept": forall(old(self.replaces), lambda p: implies(not (at(p, 0) is cls) and not (at(p, 1) is cls), p in self.replaces)),
+        "unseen_kept": forall(range(_it, seq_len(_seq)), lambda j: _seq[j] in self.replaces),
+        "types_done": seq_len(self.types) == seq_len(old(self.types)) - 1 and forall(self.types, lambda t: t in old(self.types))
+        and forall(old(self.types), lambda t: implies(not (t == cls), t in self.types))
+        and implies(distinct(old(self.types)), distinct(self.types) and not (cls in self.types)),
+    }
+
+
+@contract(REG + ".remove_by_name", props=["C09"])
+class RegistryRemoveByName:
+    """C09: disabling by name removes exactly the classes whose own name or whose actual type's name is that name
+    (given that each class is registered once), and every replace pair mentioning them."""
+    sorts = {"name": "str", "types": "list", "replaces": "set", "types[]": "class", "_seq[]": "class"}
+    modifies = ["types", "replaces"]
+
+    def requires(self, name):
+        return {"replaces_are_pairs": forall(self.replaces, lambda p: p is tuple2(at(p, 0), at(p, 1))),
+                "registered_once": distinct(self.types),
+                "all_classes": forall(self.types, lambda t: is_class(t))}
+
+    def ensures(self, name):
+        return {
+            "named_classes_gone": forall(self.types, lambda t: not (cls_name(t) == name or cls_name(clsattr(t, "actual_type")) == name)),
+            "others_kept": forall(old(self.types), lambda t: implies(not (cls_name(t) == name or cls_name(clsattr(t, "actual_type")) == name), t in self.types)),
+            "nothing_added": forall(self.types, lambda t: t in old(self.types)),
+            "still_well_formed": registry_wf(self),
+        }
+
+
+@loop(REG + ".remove_by_name", 1)
+def registry_remove_by_name_loop(self, name, _it, _seq):
+    return {
+        "pairs": forall(self.replaces, lambda p: p is tuple2(at(p, 0), at(p, 1))),
+        "seen_named_gone": forall(range(_it), lambda j: implies(cls_name(_seq[j]) == name or cls_name(clsattr(_seq[j], "actual_type")) == name, not (_seq[j] in self.types))),
+        "kept": forall(range(seq_len(_seq)), lambda j: implies(j >= _it or not (cls_name(_seq[j]) == name or cls_name(clsattr(_seq[j], "actual_type")) == name), _seq[j] in self.types)),
+        "nothing_added": forall(self.types, lambda t: t in _seq),
+        "still_classes": forall(self.types, lambda t: is_class(t)),
+        "still_once": distinct(self.types) and distinct(_seq),
+    }
+
+
+@contract(REG + ".resolve", props=["C09", "C01"])
+class RegistryResolve:
+    """C09: resolve only drops a pseudo-type when another *given* type replaces it (so, with a replace relation that is
+    sound - the replacing type accepts every string the replaced one accepts - nothing is lost); it returns a subset of
+    what it was given; no survivor is replaceable by another survivor.  (The step from these three facts to 'every given
+    type is covered by a survivor' is induction over the finite acyclic replace relation: Lean lemma L-RESOLVE.)"""
+    sorts = {"types": "tuple", "result": "set", "replaces": "set", "replaced": "set", "flag": "bool"}
+
+    def requires(self, types):
+        return {"replaces_are_pairs": forall(self.replaces, lambda p: p is tuple2(at(p, 0), at(p, 1)))}
+
+    def ensures(self, types, result):
+        return {
+            "subset_of_given": forall(result, lambda r: r in as_set_of(types)),
+            "no_survivor_replaceable": forall(result, lambda a: forall(result, lambda b: implies(not (a is b), not (tuple2(a, b) in self.replaces)))),
+            "dropped_only_if_replaced": forall(as_set_of(types), lambda t: implies(not (t in result), exists(as_set_of(types), lambda u: not (u is t) and tuple2(t, u) in self.replaces)),
+                                               lambda t: t in result),
+        }
+
+
+@loop(REG + ".resolve", 1)
+def resolve_outer(self, types, pre_types, flag):
+    given = as_set_of(pre_types)
+    return {
+        "subset": forall(types, lambda r: r in given),
+        "dropped_replaced": forall(given, lambda t: implies(not (t in types), exists(given, lambda u: not (u is t) and tuple2(t, u) in self.replaces)),
+                                   lambda t: t in types),
+        "stable_when_done": implies(not flag, forall(types, lambda a: forall(types, lambda b: implies(not (a is b), not (tuple2(a, b) in self.replaces))))),
+    }
+
+
+@loop(REG + ".resolve", 2)
+def resolve_inner(self, types, replaced, flag, _it, _seq):
+    return {
+        "replaced_have_replacement": forall(replaced, lambda x: x in types and exists(types, lambda u: not (u is x) and tuple2(x, u) in self.replaces)),
+        "flag_iff_found": flag == exists(range(_it), lambda j: _seq[j] in self.replaces),
+        "found_are_marked": forall(range(_it), lambda j: implies(_seq[j] in self.replaces, at(_seq[j], 0) in replaced)),
+    }
+
+
+@contract("json_to_models/dynamic_typing/complex.py::DUnion.__init__", props=["C08", "C10", "C01", "C02", "C07"], verify=False)
+class DUnionInit:
+    """(stub for callers; the real clauses U1-U6 are attached below once verified)"""
+    sorts = {"types": "tuple"}
+    modifies = ["_types", "_sorted", "_hash"]
+
+    def ensures(self, types):
+        return {"has_members_list": ty_is(self._types, list)}
+
+
+@contract("json_to_models/dynamic_typing/complex.py::SingleType.__init__", props=[])
+class SingleTypeInit:
+    modifies = ["_type", "_hash"]
+
+    def ensures(self, t):
+        return {"wraps": self._type is t, "hash_reset": is_none(self._hash)}
+
+
+@assumed("clsmethod:to_internal_value", props=["C09"])
+class ToInternalValue:
+    """t.to_internal_value(s) raises ValueError exactly when pseudo-type t does not accept the string s
+    (accepts is the spec relation of C09; audited against the six shipped parsers by the bounded grammar stand-in)"""
+    sorts = {"a1": "str", "result": "any"}
+    raises_exact = True
+
+    def raises(self, a0, a1):
+        return {"ValueError": not accepts(a0, a1)}
+
+
+@assumed("method:match", props=["C13"])
+class PatternMatch:
+    """compiled_pattern.match(s): truthy iff the pattern matches at the start of s (re semantics are not modelled: matches is uninterpreted)"""
+    sorts = {"a1": "str", "result": "any"}
+
+    def ensures(self, a0, a1, result):
+        return {"truthy_iff_matches": truthy(result) == matches(a0, a1)}
